@@ -18,8 +18,59 @@ let invocations (evs : string list) : (string * (string * string)) list =
         Some (nn, (a, t))
     | _ -> None) evs
 
+(* tags on the request frames we wrote, by the nonce of their argument: sorted "key=value" bindings, or "-" *)
+let tagmap_of_text (s : string) : (n list * mval) list =
+  if s = "-" || s = "" then [] else
+  match Values.parse s with
+  | VMap l -> List.filter_map (fun (k, v) -> match k with VStr b -> Some (b, v) | _ -> None) l
+  | _ -> []
+
+let canon_tags (t : (n list * mval) list) : string =
+  if t = [] then "-" else
+  String.concat "," (List.sort compare (List.map (fun (k, v) -> hex_of_bytes k ^ "=" ^ Values.print v) (tm_norm t)))
+
+let written_tags (evs : string list) : (string * string) list =
+  List.filter_map (fun e ->
+    match String.split_on_char '/' e with
+    | [ "write"; h ] ->
+        (match dec_int32 (bytes_of_hex h) with
+         | I32 (_, rest) ->
+             (match decode rest with
+              | DOk (VArr (VInt t :: els), _) ->
+                  let ti = ZZ.to_int (Values.z_of_coq t) in
+                  let base = (match ti with 0 -> 3 | 4 -> 4 | 2 -> 2 | _ -> 99) in
+                  if base = 99 || List.length els < base then None else
+                  let a = List.nth els (base - 1) in
+                  let tg = if List.length els > base then
+                             (match List.nth els base with
+                              | VMap l -> canon_tags (List.filter_map (fun (k, v) -> match k with VStr b -> Some (b, v) | _ -> None) l)
+                              | v -> "?" ^ Values.print v)
+                           else "-" in
+                  Some (ZZ.to_string (Values.z_of_coq (Abstract.nonce_of a)), tg)
+              | _ -> None)
+         | _ -> None)
+    | _ -> None) evs
+
 let run_c01 toks obs =
   C13.with_trace toks obs (fun id k evs tr ->
+    (* calls made from one context that already carries tags: each frame carries session + own tags (Model.Tags.tm_merge) *)
+    let tagbad =
+      if kv "calltags" k = "" then [] else begin
+        let sess = tagmap_of_text (kv "session" k) in
+        let wt = written_tags evs in
+        List.filter_map (fun w ->
+          match String.split_on_char '~' w with
+          | [ nn; own ] ->
+              let want = canon_tags (tm_merge sess (tagmap_of_text own)) in
+              (match List.assoc_opt nn wt with
+               | Some got when got = want -> None
+               | Some got -> Some (Printf.sprintf "call %s: frame carries tags %s, its context gives %s" nn got want)
+               | None -> None)
+          | _ -> None) (split_on '|' (kv "calltags" k))
+      end in
+    if tagbad <> [] then
+      Printf.sprintf "PROPFAIL %s sig=wrong-argument-or-tags%s %s" id (fam k) (List.hd tagbad)
+    else
     if not (c01_no_crosstalk tr) then
       Printf.sprintf "PROPFAIL %s sig=crosstalk%s a call returned a result that the peer did not send for that call's seqno" id (fam k)
     else if not (c01_never_twice tr) then
